@@ -2,6 +2,7 @@ import PilotaModel.TGen.Decode
 import PilotaModel.Lemmas.BinaryRT
 import PilotaModel.Lemmas.CompactRT
 import PilotaModel.Lemmas.Tolerant
+import PilotaModel.Lemmas.TolerantC
 import PilotaModel.Lemmas.ProjMono
 import PilotaModel.Lemmas.OpsRun
 /-
@@ -14,11 +15,9 @@ import PilotaModel.Lemmas.OpsRun
   writes returns `v` and consumes exactly those bytes, with any trailing input left in place.
   `decoded_is_canon_example` / `default_comes_back` show the one permitted difference (an absent
   optional field with an IDL default comes back holding the default).
-  Still open: the same statement for the compact protocol (`gen_roundtrip_compact`); proved for
-  compact so far (`_partial`) are the leaves and the loop step the induction is made of:
-  every base-typed value decodes back to itself under binary / LE / unchecked and compact with exact
-  consumption (`base_roundtrip_*`), and a declared field whose wire type matches is decoded by its
-  declared type and stored under its id, later occurrences replacing earlier ones (`known_field_decoded`).
+  `gen_roundtrip_compact` is the same statement for the compact protocol, from every reader state without a
+  deferred bool and with that state restored.  The earlier `_partial` leaves (`base_roundtrip_*`,
+  `known_field_decoded`) are kept: they are the steps the inductions are made of.
   The emitted encoder is `TVal.ops` of the decoded value (the field order and the per-type calls of
   `codegen_encode_fields` are checked against the real emitted code by T1 on every run).
 -/
@@ -42,10 +41,21 @@ theorem gen_roundtrip_binary (e : Endian) (dp : Option Nat) (d : Doc) (n : Strin
   rw [Binary.run_ops] at this ⊢
   exact this
 
+/-- **Round trip of emitted types, compact protocol.** -/
+theorem gen_roundtrip_compact (d : Doc) (n : String) (v : TVal) (cr : Compact.CR) (rest : Bytes) (f : Nat)
+    (hcr : cr.pendingBool = none) (hw : v.wt = true) (hc : Canon d dpC f (.ref n) v)
+    (hf : f ≤ 3 * (Compact.enc v ++ rest).length + 8) :
+    decode cmpRd d n (cr, Compact.enc v ++ rest) = .ok (v, (cr, rest)) := by
+  unfold decode
+  have hrem : cmpRd.remaining (cr, Compact.enc v ++ rest) = (Compact.enc v ++ rest).length := rfl
+  rw [hrem]
+  exact (corrC_all d _).1 (.ref n) v cr rest (.ok v) hw hcr (projTy_mono d dpC f _ hf _ v v hc)
+
 def demoDoc : Doc := [("S", .struct [{ id := 1, ty := .i32, required := true },
   { id := 2, ty := .list (.ref "S"), required := false }, { id := 3, ty := .bool, required := false, dflt := some (.bool true) }])]
 def demoVal : TVal := .struct (.cons 1 (.i32 5) (.cons 2 (.list .struct (.cons (.struct (.cons 1 (.i32 6) (.cons 3 (.bool false) .nil))) .nil)) (.cons 3 (.bool true) .nil)))
 example : demoVal.wt = true ∧ Canon demoDoc (some 64) 12 (.ref "S") demoVal := ⟨by decide, by unfold Canon; decide⟩
+example : Canon demoDoc dpC 12 (.ref "S") demoVal ∧ (12 : Nat) ≤ 3 * (Compact.enc demoVal ++ []).length + 8 := ⟨by unfold Canon; decide, by decide +kernel⟩
 /-- the permitted difference: the absent optional field 3 comes back holding its IDL default -/
 theorem default_comes_back :
     projTy demoDoc (some 64) 9 (.ref "S") (.struct (.cons 1 (.i32 5) .nil)) = some (.ok (.struct (.cons 1 (.i32 5) (.cons 3 (.bool true) .nil)))) := by decide
